@@ -231,7 +231,7 @@ func loadKnown(root string) []KnownFinding {
 	var f struct {
 		Findings []KnownFinding `json:"findings"`
 	}
-	data, err := os.ReadFile(filepath.Join(root, "known_findings.json"))
+	data, err := os.ReadFile("/verif/known_findings.json")
 	if err != nil {
 		return nil
 	}
